@@ -3,7 +3,8 @@
   emits, as a function of the raw word and the instruction address, for the classes
 
     add/adds/sub/subs (immediate) and (shifted register), incl. the MOV (to/from SP) alias,
-    mov (register) [ORR alias], mov (wide immediate / inverted wide immediate) [MOVZ / MOVN aliases], nop,
+    mov (register) [ORR alias], mov (wide immediate / inverted wide immediate) [MOVZ / MOVN aliases],
+    mov (bitmask immediate) [ORR-immediate alias], add/sub (extended register), nop,
     ldr/ldrb/ldrh/ldrsb/ldrsh/ldrsw/str/strb/strh (integer) with unsigned offset, unscaled offset,
     post-index and pre-index,
     b, bl, b.cond, cbz/cbnz, tbz/tbnz, br, blr, ret.
@@ -132,6 +133,36 @@ def addSubShift (w : BitVec 32) (addr : Nat) : Option BTR :=
     if s then some (straight addr (flagOps N op l r ++ [setZ N d (.bin op l r)]))
     else some (straight addr [setZ N d (.bin op l r)])
 
+
+/-- `shift()` for the extend modifiers (UXTB … SXTX) applied to a register value of `vb` bits -/
+def extended (N vb : Nat) (v : Expr) (option amount : Nat) : Expr :=
+  let len := 8 <<< (option % 4)
+  let e1 := if len < vb then Expr.ext .trun len v else v
+  let e2 := if len < N then Expr.ext (if option < 4 then .zext else .sext) N e1 else e1
+  .bin .shl e2 (k amount N)
+
+/-- ADD/ADDS/SUB/SUBS (extended register).  bad64 names Rm as Xm for UXTX/SXTX in the 64-bit form and as Wm
+    otherwise, and prints `add Xd|SP, Xn|SP, Xm` (no modifier) for UXTX #0 when Rd or Rn is 31 -/
+def addSubExt (w : BitVec 32) (addr : Nat) : Option BTR :=
+  let N := if bit w 31 then 64 else 32
+  let sub := bit w 30
+  let s := bit w 29
+  let option := fld w 15 13
+  let imm3 := fld w 12 10
+  let m := fld w 20 16
+  let n := fld w 9 5
+  let d := fld w 4 0
+  if fld w 23 22 ≠ 0 ∨ imm3 > 4 then none
+  else if s ∧ d = 31 then none                             -- cmn / cmp
+  else
+    let vb := if N = 64 ∧ option % 4 = 3 then 64 else 32
+    let r := if N = 64 ∧ option = 3 ∧ imm3 = 0 ∧ (d = 31 ∨ n = 31) then rz 64 m
+             else extended N vb (rz vb m) option imm3
+    let op : BinOp := if sub then .sub else .add
+    let l := rs N n
+    if s then some (straight addr (flagOps N op l r ++ [setZ N d (.bin op l r)]))
+    else some (straight addr [setS N d (.bin op l r)])
+
 /-! ### mov -/
 
 /-- ORR (shifted register) with Rn = 31, no shift: `mov Rd, Rm` -/
@@ -154,6 +185,32 @@ def movWide (w : BitVec 32) (addr : Nat) : Option BTR :=
   else if opc = 0 then
     if N = 32 ∧ imm16 = 0xffff then none                   -- stays movn
     else some (straight addr [setZ N d (k (2 ^ N - 1 - (imm16 <<< (16 * hw))) N)])
+  else none
+
+
+/-- the value fits one 16-bit halfword of a 64-bit word -/
+def oneHalfword (v : Nat) : Bool :=
+  [0, 16, 32, 48].any fun sh => v &&& (0xffffffffffffffff - (0xffff <<< sh)) == 0
+
+/-- bad64's `MoveWidePreferred` (arch-arm64/disassembler/pcode.c): the element size is the register size and the
+    decoded immediate, or its complement, fits one halfword — then the ORR-immediate is NOT printed as `mov` -/
+def moveWidePreferred (sf immN : Bool) (imms immr : Nat) : Bool :=
+  let width := if sf then 64 else 32
+  if sf ∧ !immN then false
+  else if !sf ∧ (immN ∨ imms ≥ 32) then false
+  else
+    match A64.decodeBitMasks (if immN then 1 else 0) imms immr width with
+    | none => false
+    | some imm => oneHalfword imm.toNat || oneHalfword (2 ^ width - 1 - imm.toNat)
+
+/-- ORR (immediate) with Rn = 31 when bad64 prints it as `mov Rd|SP, #bitmask` -/
+def movBitmask (w : BitVec 32) (addr : Nat) : Option BTR :=
+  let N := if bit w 31 then 64 else 32
+  if fld w 30 29 = 1 ∧ fld w 9 5 = 31 ∧ !(N = 32 ∧ bit w 22) ∧
+      !moveWidePreferred (bit w 31) (bit w 22) (fld w 15 10) (fld w 21 16) then
+    match A64.decodeBitMasks (fld w 22 22) (fld w 15 10) (fld w 21 16) N with
+    | some imm => some (straight addr [setS N (fld w 4 0) (k imm.toNat N)])
+    | none => none
   else none
 
 /-! ### loads and stores (integer, immediate forms) -/
@@ -270,13 +327,17 @@ def lift (w : BitVec 32) (addr : Nat) : Option BTR :=
   else if fld w 28 24 = 0b01010 then movReg w addr
   else if fld w 28 23 = 0b100101 then movWide w addr
   else if fld w 29 27 = 0b111 ∧ !bit w 25 then ldstImm w addr
+  else if fld w 28 23 = 0b100100 then movBitmask w addr
+  else if fld w 28 24 = 0b01011 then addSubExt w addr
   else branches w addr
 
 /-- does the mirror cover this word?  (used by the driver: `none` from `lift` on a covered word means
     "the lifter rejects it") -/
 def covered (w : BitVec 32) : Bool :=
-  w.toNat = 0xd503201f ∨ fld w 28 23 = 0b100010 ∨ (fld w 28 24 = 0b01011 ∧ !bit w 21) ∨ fld w 28 24 = 0b01010 ∨
-  fld w 28 23 = 0b100101 ∨ (fld w 29 27 = 0b111 ∧ !bit w 25 ∧ !bit w 26 ∧ (fld w 25 24 = 1 ∨ !bit w 21)) ∨
+  w.toNat = 0xd503201f ∨ fld w 28 23 = 0b100010 ∨ fld w 28 24 = 0b01011 ∨ fld w 28 24 = 0b01010 ∨
+  fld w 28 23 = 0b100101 ∨
+  (fld w 28 23 = 0b100100 ∧ (A64.decodeBitMasks (fld w 22 22) (fld w 15 10) (fld w 21 16) (if bit w 31 then 64 else 32)).isSome) ∨
+  (fld w 29 27 = 0b111 ∧ !bit w 25 ∧ !bit w 26 ∧ (fld w 25 24 = 1 ∨ !bit w 21)) ∨
   fld w 30 26 = 0b00101 ∨ fld w 31 25 = 0b0101010 ∨ fld w 30 25 = 0b011010 ∨ fld w 30 25 = 0b011011 ∨
   fld w 31 25 = 0b1101011
 
